@@ -59,7 +59,8 @@ def g_tokens(maxlen, flags="n", tables=None, wrap=True):
 # ---------------------------------------------------------------------------------------------
 # G-pieces: exhaustive piece sequences for character data (C04) and attribute values (C05)
 # ---------------------------------------------------------------------------------------------
-TEXT_ENTITIES = [("e0", ""), ("e1", "E"), ("e2", "\r"), ("e3", "\nE"), ("e4", "E\r"), ("e5", "p\r\nq"), ("e6", "&e1;\n")]
+TEXT_ENTITIES = [("e0", ""), ("e1", "E"), ("e2", "\r"), ("e3", "\nE"), ("e4", "E\r"), ("e5", "p\r\nq"), ("e6", "&e1;\n"),
+                 ("e7", "<![CDATA[y]]>"), ("e8", "<![CDATA[\r]]>w")]   # values that START with a CDATA section: character data although they begin with '<'
 # (source text, kind); kinds: lit, ref (character reference / predefined), cdata, ent
 TEXT_PIECES = [("a", "lit"), ("\n", "lit"), ("\r", "lit"), ("\t", "lit"),
                ("&#10;", "ref"), ("&#13;", "ref"), ("&#9;", "ref"), ("&#x41;", "ref"), ("&amp;", "ref"),
@@ -249,6 +250,12 @@ def g_ent_cycles(maxlen=32, flags=""):
         # the cycle passes through elements whose attributes need normalisation (TAB reference / entity)
         decls3 = [("k%d" % i, "<b x=\"&#9;\" y=\"&v;\"/>&k%d;" % ((i + 1) % l)) for i in range(l)] + [("v", "w")]
         out.append(Case(ent_doc(decls3, "<r>&k0;</r>"), flags, True, meta={"gen": "cycle-through-attr-elements", "len": l, "expect": "EntityReferenceLoop"}))
+        # the back reference sits inside an element the entity value opens: the loop error must win over the
+        # "element not closed inside the entity" error of every enclosing level
+        decls4 = [("o%d" % i, "<x>&o%d;</x>" % ((i + 1) % l)) for i in range(l)]
+        out.append(Case(ent_doc(decls4, "<r>&o0;</r>"), flags, True, meta={"gen": "cycle-inside-open-element", "len": l, "expect": "EntityReferenceLoop"}))
+        decls5 = [("p%d" % i, "t<x a=\"1\">u&p%d;" % ((i + 1) % l)) for i in range(l)]
+        out.append(Case(ent_doc(decls5, "<r>&p0;</r>"), flags, True, meta={"gen": "cycle-inside-unclosed-element", "len": l, "expect": "EntityReferenceLoop"}))
         # re-declarations: the FIRST declaration binds.  A cycle whose closing edge is re-declared harmlessly is still
         # a cycle; a harmless chain followed by a re-declaration that would close a cycle is still harmless.
         for use, body in (("text", "<r>&c0;</r>"), ("attr", "<r a='&c0;'/>")):
@@ -557,3 +564,78 @@ def g_cst(seed, n, flags="nc", renderings=1, size=12, hoist=False, doctype_free=
             out.append(Case(txt, flags, True, meta={"gen": "cst", "doc": k, "rendering": r, "expect_content": exp,
                                                     "hoisted": len(rr.entities), "d15": rr.d15}))
     return out
+
+
+# ---------------------------------------------------------------------------------------------
+# entity values cut at every byte: the sub-stream of an entity value ends in the middle of every construct
+# (the byte after the value is the closing quote of the declaration's literal)
+# ---------------------------------------------------------------------------------------------
+ENT_VALUE_SAMPLES = [
+    "<b c=\"v\" d = \"w&#65;&amp;\">t&#x42;&lt;<!--c--><?p v?><![CDATA[x]]>&amp;&#65;</b >u",
+    "<p:b xmlns:p=\"u\" p:c=\"1\" xmlns=\"d\"><c/></p:b><!-- - --><?q?>",
+    "a&#9;&#xA;&n;<i x=\"&n;\"/>]]",
+]
+
+
+def g_entity_value_prefixes(flags=""):
+    out = []
+    for sample in ENT_VALUE_SAMPLES:
+        for quote, s in (("'", sample), ('"', sample.replace('"', "'"))):
+            for i in range(len(s) + 1):
+                v = s[:i]
+                decl = "<!ENTITY n \"k\"><!ENTITY e %s%s%s><!ENTITY f %s&e;%s>" % (quote, v, quote, quote, quote)
+                for use, body in (("content", "<r>&e;</r>"), ("content-tail", "<r>&e;z</r>"), ("nested", "<r>&f;</r>"),
+                                  ("attr", "<r a=\"&e;\"/>"), ("attr-in-entity-elem", "<r>&e;<s t=\"&e;\"/></r>")):
+                    out.append(Case("<!DOCTYPE r [" + decl + "]>" + body, flags, True,
+                                    meta={"gen": "entity-value-prefix", "use": use, "cut": i, "quote": quote}))
+    return out
+
+
+# ---------------------------------------------------------------------------------------------
+# numeric character references around every width: more digits than u32 / u64 hold, leading zeros, empty
+# ---------------------------------------------------------------------------------------------
+def g_big_charrefs(flags=""):
+    vals = [0, 1, 9, 0x41, 0xD7FF, 0xD800, 0xFFFE, 0x10FFFF, 0x110000, 2**31 - 1, 2**31, 2**32 - 1, 2**32, 2**32 + 0x41,
+            2**33, 2**63, 2**64 - 1, 2**64, 2**64 + 0x41, 10**20, 10**40]
+    refs = ["&#;", "&#x;", "&#xG;", "&#-1;", "&#+65;", "&# 65;", "&#65 ;", "&#x 41;", "&#X41;"]
+    for v in vals:
+        refs += ["&#%d;" % v, "&#x%x;" % v, "&#x%X;" % v, "&#%s%d;" % ("0" * 12, v), "&#x%s%x;" % ("0" * 20, v)]
+    out = []
+    for r in refs:
+        for use, doc in (("text", "<r>a%sb</r>" % r), ("attr", "<r a='x%sy'/>" % r), ("ns-uri", "<r xmlns:p='u%s'/>" % r),
+                         ("entity-text", "<!DOCTYPE r [<!ENTITY e \"v%sw\">]><r>&e;</r>" % r),
+                         ("entity-attr", "<!DOCTYPE r [<!ENTITY e \"v%sw\">]><r a='&e;'/>" % r),
+                         ("entity-elem-attr", "<!DOCTYPE r [<!ENTITY e \"<i a='%s'/>\">]><r>&e;</r>" % r),
+                         ("entity-unused", "<!DOCTYPE r [<!ENTITY e \"v%sw\">]><r/>" % r)):
+            out.append(Case(doc, flags, True, meta={"gen": "charref-width", "use": use, "ref": r}))
+    return out
+
+
+def g_ent_charrefs_free(flags="c"):
+    """character and predefined references are not entity expansions: any number of them inside entity values --
+    in text, in attribute values, in attributes of elements inside entities -- never triggers the loop guard"""
+    out = []
+    refs = [("&#x41;", "A"), ("&#66;", "B"), ("&amp;", "&"), ("&apos;", "'"), ("&gt;", ">")]
+    for ref, ch in refs:
+        for k in (254, 255, 256, 300, 700):
+            decls = [("e", ref.replace("&", "&#38;") * 0 + ref * k)]
+            out.append(Case(ent_doc_dq(decls, "<r>&e;</r>"), flags, True,
+                            meta={"gen": "charrefs-free-text", "k": k, "ref": ref, "expect": "ok", "expect_value": ch * k}))
+            out.append(Case(ent_doc_dq(decls, "<r a='&e;'/>"), flags, True,
+                            meta={"gen": "charrefs-free-attr", "k": k, "ref": ref, "expect": "ok", "expect_value": ch * k}))
+            decls2 = [("w", "<i a='" + ref * k + "'/>")]
+            out.append(Case(ent_doc_dq(decls2, "<r>&w;</r>"), flags, True,
+                            meta={"gen": "charrefs-free-attr-in-entity-element", "k": k, "ref": ref, "expect": "ok", "expect_value": ch * k}))
+    # entity references within the budget, each leaf carrying character references as well
+    for n in (100, 200, 255):
+        for use in ("text", "attr"):
+            decls = [("l", "&#x41;&amp;"), ("e", "&l;" * (n - 1 if n == 255 else n))]
+            body = "<r>&e;</r>" if use == "text" else "<r a='&e;'/>"
+            cnt = n - 1 if n == 255 else n
+            out.append(Case(ent_doc_dq(decls, body), flags, True,
+                            meta={"gen": "charrefs-free-leaves-" + use, "n": cnt, "expect": "ok", "expect_value": "A&" * cnt}))
+    return out
+
+
+def ent_doc_dq(decls, body):
+    return "<!DOCTYPE r [" + "".join("<!ENTITY %s \"%s\">" % (n, v) for n, v in decls) + "]>" + body
